@@ -347,6 +347,18 @@ func (g *Gen) stdSpecial(st *State, name string, call *ssa.CallCommon, result ss
 		g.setResult(result, Val{T: r, Kind: "err", Ty: result.Type()})
 		g.trustedUsed[name+": returns a fresh hash object (modelled as the record of the bytes written to it)"] = true
 		return true
+	case "path/filepath.Join":
+		// filepath.Join(a, b) with a literal argument list of two strings: the term pathJoin2(a, b)
+		if g.opaqueStr {
+			if inner, ok := g.varargInners(st, call.Args[0]); ok && len(inner) == 2 {
+				a, b := g.val(st, inner[0]), g.val(st, inner[1])
+				if a.Kind == "int" && b.Kind == "int" {
+					g.setResult(result, Val{T: fmt.Sprintf("(%s %s %s)", g.uf("pathJoin2", 2, "Int"), a.T, b.T), Kind: "int"})
+					return true
+				}
+			}
+		}
+		return false
 	case "io.NewSectionReader":
 		return g.newSectionReader(st, call, result)
 	case "errors.Is":
@@ -498,6 +510,9 @@ func (g *Gen) callCommon(fn *ssa.Function, st *State, call *ssa.CallCommon, resu
 					if i < len(args) {
 						e2["arg:"+n] = args[i]
 					}
+				}
+				for i := range args { // positional names arg_0, arg_1, ... (calls of function values have no parameter names)
+					e2[fmt.Sprintf("arg:%d", i)] = args[i]
 				}
 				// variadic call with a literal argument list: arg_va0, arg_va1, ... are the values passed
 				if sig, ok := call.Value.Type().Underlying().(*types.Signature); ok && sig.Variadic() && len(call.Args) > 0 {
@@ -770,7 +785,9 @@ func (g *Gen) havocByContract(st *State, cc *Contract, env map[string]Val, args 
 		kept := map[string]Val{}
 		if g.c != nil {
 			for _, k := range g.c.Keeps {
-				kept[k] = st.ghost[k]
+				if strings.HasPrefix(k, "$") {
+					kept[k] = st.ghost[k]
+				}
 			}
 			if len(kept) > 0 {
 				g.trustedUsed["callees of "+g.short+" that have no contract are assumed not to change "+strings.Join(g.c.Keeps, " ")+" (they write only through the writer they are given)"] = true
@@ -781,7 +798,18 @@ func (g *Gen) havocByContract(st *State, cc *Contract, env map[string]Val, args 
 			st.ghost[k] = v
 		}
 		havocArgCells()
+		keptGlob := map[string]bool{}
+		if g.c != nil {
+			for _, k := range g.c.Keeps { // `keeps name` also names package variables the callees do not assign
+				if !strings.HasPrefix(k, "$") {
+					keptGlob[k] = true
+				}
+			}
+		}
 		for _, k := range sortedKeys(g.globInit) {
+			if keptGlob[k[strings.LastIndex(k, ".")+1:]] {
+				continue
+			}
 			if v := g.globInit[k]; v.Kind == "int" || v.Kind == "bool" || v.Kind == "opaque" {
 				if v.Ty != nil {
 					st.globs[k] = g.symFor(v.Ty, k+"_c", st) // a callee without contract may assign package variables
